@@ -23,9 +23,9 @@ import (
 
 type reapItem struct {
 	call *ssa.Call
-	kind string   // Checkpoint, CalcCRC32, RemoveAll, WriteMeta, VerifyDB, Rename
-	set  string   // for RemoveAll: "newer" | "older"
-	opt  bool     // not executed on every path of its branch
+	kind string // Checkpoint, CalcCRC32, RemoveAll, WriteMeta, VerifyDB, Rename
+	set  string // for RemoveAll: "newer" | "older"
+	opt  bool   // not executed on every path of its branch
 }
 
 func c07ReapReplay(c *core.Ctx) {
